@@ -154,6 +154,21 @@ class Incarnation:
         self.spawns = []
 
 
+def incs_to_json(incs):
+    return {u: [{"owner": i.owner, "t0": i.t0, "occ": i.occ, "end": i.end, "limit": i.limit, "more": getattr(i, "more", False),
+                 "conn": getattr(i, "conn", None), "end_conn": getattr(i, "end_conn", None)} for i in l] for u, l in incs.items()}
+
+
+def incs_from_json(d):
+    out = {}
+    for u, l in d.items():
+        for j in l:
+            i = Incarnation(u, j["owner"], j["t0"], j["occ"], limit=j["limit"])
+            i.end, i.more, i.conn, i.end_conn = j["end"], j["more"], j["conn"], j["end_conn"]
+            out.setdefault(u, []).append(i)
+    return out
+
+
 def check_schedule(events, incarnations, t_end, part_violation, sig_prefix=""):
     """C04 rules over the event log.
     incarnations: dict uid -> list of Incarnation in load order (t0 ascending)"""
